@@ -1058,7 +1058,18 @@ where
         }
 
         // At this point we know that k is small enough (k <= threshold) thus we can
-        // proceed by multiplying the constant by every limb.
+        // proceed by multiplying the constant by every limb, provided the scaled limb
+        // bounds stay within the maximum limb bound: if they would not (x is not
+        // normalized), normalize x first.
+        let k_bi: BI = k.to_biguint().into();
+        let max_limb_bound = P::max_limb_bound();
+        let x = &if x.limb_bounds.iter().any(|(lower, upper)| {
+            lower * &k_bi < -&max_limb_bound || upper * &k_bi + &k_bi > max_limb_bound
+        }) {
+            self.normalize(layouter, x)?
+        } else {
+            x.clone()
+        };
 
         // Note that x := 1 + sum_i base^i xi.
         // Thus z = k * x is equal to k + sum_i base^i (k * xi).
